@@ -654,7 +654,9 @@ func (h *Sources) getLine(line *core.Line, cur *core.Cursor) (*core.Line, *core.
 			return line, cur
 		}
 
-		lh := hist[0]
+		// The line being typed is not a history line: its
+		// states are kept under the position -1 (see Init).
+		lh := hist[-1]
 		if lh == nil || len(lh.items) == 0 {
 			return line, cur
 		}
